@@ -8,6 +8,7 @@ package main
 
 import (
 	"fmt"
+	"os"
 	"runtime"
 	"sync"
 	"sync/atomic"
@@ -194,4 +195,70 @@ func runWorkload(wl Workload) []Window {
 		}
 	}
 	return wins
+}
+
+// raceWorkload is what the -race build runs (thorough tier): no ticks, no
+// shared mutex, so that the race detector sees as few happens-before edges as
+// the code under test itself creates.  Phase 1: every operation except
+// updates through retained handles (no report expected).  Phase 2: updates
+// through retained handles against deletes (known finding: Leaf.Update races
+// with Delete).
+func raceWorkload(seed uint64) {
+	r := vh.NewRand(seed)
+	t := &ctree.Tree{}
+	var wg sync.WaitGroup
+	for g := 0; g < 12; g++ {
+		wg.Add(1)
+		rr := r.Fork()
+		go func() {
+			defer wg.Done()
+			for i := 0; i < 4000; i++ {
+				var o SOp
+				switch rr.Pick(45, 15, 12, 18, 10) {
+				case 0:
+					o = SOp{K: "add", P: leafPaths[rr.Intn(len(leafPaths))], V: int64(1 + rr.Intn(9))}
+				case 1:
+					o = SOp{K: "getval", P: leafPaths[rr.Intn(len(leafPaths))]}
+				case 2:
+					o = SOp{K: "delete", P: delPaths[rr.Intn(len(delPaths))]}
+				case 3:
+					o = SOp{K: "query", P: queryPaths[rr.Intn(len(queryPaths))]}
+				default:
+					// Value through a handle (reads only)
+					l := t.GetLeaf(leafPaths[rr.Intn(len(leafPaths))])
+					_ = l.Value()
+					continue
+				}
+				func() {
+					defer func() { recover() }()
+					applyOp(t, o, nil, nil)
+				}()
+			}
+		}()
+	}
+	wg.Wait()
+	fmt.Fprintln(os.Stderr, "C10-RACE-PHASE-2")
+	t2 := &ctree.Tree{}
+	p := []string{"a", "b"}
+	t2.Add(p, int64(1))
+	for g := 0; g < 4; g++ {
+		wg.Add(1)
+		g := g
+		go func() {
+			defer wg.Done()
+			for i := 0; i < 3000; i++ {
+				if g%2 == 0 {
+					if l := t2.GetLeaf(p); l != nil {
+						if _, ok := l.Value().(int64); ok {
+							l.Update(int64(i))
+						}
+					}
+					t2.Add(p, int64(i))
+				} else {
+					t2.Delete(p)
+				}
+			}
+		}()
+	}
+	wg.Wait()
 }
